@@ -19,6 +19,8 @@ import numpy as np
 from harness import c03_lib as L
 from harness import c03_run as R
 from harness import c03_streams as S
+from harness import c04_extract
+from harness import c04_lib as C
 from harness import core
 
 PROP_MODULES = ["OV.Props.C04"]
@@ -55,6 +57,11 @@ def main(run: core.Run) -> None:
         "onnx.checker (full_check) and onnxruntime are oracles, not theorems",
         "'valid model' = passes onnx.checker and executes on onnxruntime CPU with optimisations disabled",
     ]
+    # translator tie: the pass order of optimize_ir is read off the source and compared with the modelled order by the
+    # theorem OV.Props.C04.pipeline_order_matches_source (a drift makes the proof obligations fail)
+    table = c04_extract.regenerate()
+    run.coverage["pipeline_table"] = {k: table[k] for k in ("loop", "tail", "prefix", "guard", "steps", "early_stop", "defaults",
+                                                            "other_statements", "fold_fixes_names_when_modified", "changed")}
     audit = run.prove(PROP_MODULES)
     drv = core.Driver("C03")
     stats: Counter = Counter()
@@ -65,7 +72,10 @@ def main(run: core.Run) -> None:
         case = body["case"]
         m = R.unb64(case["model_b64"])
         init_inputs = sorted({t.name for t in m.graph.initializer} & {i.name for i in m.graph.input})
-        d = R.judge_validity(m, case.get("api", "optimize"), case.get("opts", {}), run.rng, init_inputs)
+        if "history" in case or "presentation" in case or str(case.get("family", "")).startswith(("alias_", "sts_", "shared_", "inits_", "fout_")):
+            d = C.replay_case(case, m, run.rng, init_inputs)
+        else:
+            d = R.judge_validity(m, case.get("api", "optimize"), case.get("opts", {}), run.rng, init_inputs)
         print(f"REPLAY {case.get('api')} {case.get('opts')}: {d}")
         if d:
             run.violation(case, f"replayed case still fails: {d}")
@@ -79,7 +89,7 @@ def main(run: core.Run) -> None:
     n_models = run.size(1600, 12000)
     if drift and run.tier == "quick":
         n_models *= 3
-    models = R.gen_stream(run, n_models, stats) + R.directed_tie_models()
+    models = R.gen_stream(run, n_models, stats) + R.directed_tie_models() + C.directed_tie_models()
     tie_problems = R.fold_tie(run, drv, models, stats, hist)
 
     failures = []
@@ -99,13 +109,16 @@ def main(run: core.Run) -> None:
                 stats["override_runs"] += 1
             d = R.judge_validity(m, api, opts, run.rng, meta["init_inputs"], meta.get("overrides"))
             if d:
-                fid = R.known_in_stream(meta, open_ids)
+                # a semantic finding of the stream (C03-D1: keepdims honoured) never explains an exception
+                fid = R.known_in_stream(meta, open_ids) if " raised " not in d else None
                 if not fid and "C09-N3" in open_ids and R.classify_c09n3(m, d):
                     fid = "C09-N3"
                 if not fid and "C04-D7" in open_ids and api in ("optimize", "rewrite") and R.classify_c04d7(m, api, opts, d, run.rng, meta["init_inputs"], meta.get("overrides")):
                     fid = "C04-D7"
                 if not fid and "C04-D4" in open_ids and R.classify_c04d4(m, api, opts, d, run.rng, meta["init_inputs"]):
                     fid = "C04-D4"
+                if not fid and "C04-D14" in open_ids and " raised " in d and C.pred_c04d14(api, m, opts):
+                    fid = "C04-D14"
                 if fid:
                     stats[f"known_{fid}_in_stream"] += 1
                     continue
@@ -123,6 +136,15 @@ def main(run: core.Run) -> None:
         rule_failures.append((desc, d))
     # ---- directed families of the round-3 findings (old opsets, If in function bodies, Identity onto declared inputs)
     rule_failures += R.round3_stream(run, stats, open_ids)
+    # ---- round 5: interior names shared by sibling scopes, function outputs out of inlined branches (C04-D12, C04-D13),
+    #      histories (second calls, re-used objects) and presentations (more / less optional information) of generated models
+    rule_failures += C.directed_stream(run, stats, open_ids)
+    rule_failures += C.boundary_stream(run, stats, open_ids)
+    rule_failures += C.clip_chain_stream(run, stats, open_ids)
+    tie_problems += C.function_tie_stream(drv, stats, hist)
+    n_hist = run.size(210, 1400)
+    rule_failures += C.second_call_stream(run, models, stats, n_hist, open_ids)
+    rule_failures += C.presentation_stream(run, models[n_hist:], stats, run.size(150, 1000), open_ids)
     # ---- functions (checker/walker on bodies, `modified`), evaluator state across opsets, shape inference with overrides
     extra = (S.function_stream(run, drv, stats, hist, run.size(16, 64)) + S.opset_history_stream(run, stats)
              + S.shape_override_stream(run, stats, run.size(10, 40)))
@@ -183,6 +205,16 @@ def main(run: core.Run) -> None:
     )
     if stats["override_runs"] == 0:
         raise core.Infra("generator degenerated: no model with an overridable initializer-input")
-    for b in ("gate:graphinput", "clear:initializer", "out:replaced", "if:then", "if:else", "fold:initializer"):
+    for b in ("gate:graphinput", "clear:initializer", "out:replaced", "if:then", "if:else", "fold:initializer", "out:alreadyoutput"):
         if hist[b] == 0:
             raise core.Infra(f"generator degenerated: model branch never reached: {b}")
+    required = ([f"history_{k}" for k in C.HISTORIES] + [f"presentation_{k}" for k in C.PRESENTATIONS]
+                + ["family_shared", "family_fout", "family_inits", "family_pass_shared", "family_pass_fout", "family_pass_inits",
+                   "history_result_differs_from_input",
+                   "boundary_alias", "boundary_sts", "boundary_pass_alias", "boundary_pass_sts", "c04_fn_tie_models",
+                   "family_clipchain", "family_pass_clipchain"])
+    for c in required:
+        if stats[c] == 0:
+            raise core.Infra(f"stream degenerated: required counter is 0: {c}")
+    if stats["presentation_refused"] > 0.3 * sum(stats[f"presentation_{k}"] for k in C.PRESENTATIONS):
+        raise core.Infra("presentation stream degenerated: >30% of the presentations are not valid models")
